@@ -292,10 +292,21 @@ Proof.
   - rewrite app_nil_r. reflexivity.
 Qed.
 
+(** the fix of [esds]: a descriptor that fits the bytes left in its container is not clamped *)
+Lemma clamp_desc_size_fit sz e pos : pos + sz <= e -> clamp_desc_size sz e pos = sz.
+Proof. unfold clamp_desc_size. intros H. apply N.min_l. clear -H. lia. Qed.
+
+(** after [read_desc]: the [stream_position] call of [clamp_desc_size] and the clamp itself *)
+Ltac clamp_step :=
+  prog_norm; rewrite run_GetPos; cbv zeta;
+  rewrite clamp_desc_size_fit by (clear; unfold HEADER_SIZE, Tables.HEADER_SIZE; lia).
+
 Lemma decconfig_loop_S f current e acc :
   decconfig_loop (S f) current e acc =
   (if current <? e then
      '(desc_tag, desc_size) <- read_desc ;;
+     pos <- get_pos ;;
+     let desc_size := clamp_desc_size desc_size e pos in
      if desc_tag =? 5 then
        d <- dec_decspecific desc_size ;; c <- get_pos ;; decconfig_loop f c e (Some d)
      else
@@ -325,6 +336,7 @@ Proof.
     replace (a <? b) with true by (symmetry; apply N.ltb_lt; clear; lia) end.
   cbv iota. rewrite !bind_bind.
   rewrite run_read_desc_small by (clear; lia). cbv beta iota.
+  clamp_step.
   change (5 =? 5) with true. cbv iota. rewrite !bind_bind.
   rewrite (decspecific_dec (decconfig_dec_specific v)) by assumption.
   prog_norm. rewrite run_GetPos.
@@ -401,6 +413,8 @@ Lemma esdesc_loop_S m f current e dc sl :
   esdesc_loop m (S f) current e dc sl =
   (if current <? e then
      '(desc_tag, desc_size) <- read_desc ;;
+     pos <- get_pos ;;
+     let desc_size := clamp_desc_size desc_size e pos in
      if desc_tag =? 4 then
        d <- dec_decconfig m desc_size ;; c <- get_pos ;; esdesc_loop m f c e (Some d) sl
      else if desc_tag =? 6 then
@@ -431,11 +445,13 @@ Proof.
   rewrite run_add64_ok by (clear -Hp; unfold U64; lia).
   rewrite esdesc_loop_S. cond_true. rewrite !bind_bind.
   rewrite run_read_desc_small by (clear; lia). cbv beta iota.
+  clamp_step.
   change (4 =? 4) with true. cbv iota. rewrite !bind_bind.
   rewrite (decconfig_dec m (esdesc_dec_config v)) by (first [assumption | clear -Hp; lia]).
   prog_norm. rewrite run_GetPos.
   rewrite esdesc_loop_S. cond_true. rewrite !bind_bind.
   rewrite run_read_desc_small by (clear; lia). cbv beta iota.
+  clamp_step.
   change (6 =? 4) with false. change (6 =? 6) with true. cbv iota. rewrite !bind_bind.
   rewrite slconfig_dec.
   prog_norm. rewrite run_GetPos.
@@ -510,6 +526,8 @@ Lemma esds_loop_S m f current e acc :
   esds_loop m (S f) current e acc =
   (if current <? e then
      '(desc_tag, desc_size) <- read_desc ;;
+     pos <- get_pos ;;
+     let desc_size := clamp_desc_size desc_size e pos in
      if desc_tag =? 3 then
        d <- dec_esdesc m desc_size ;; c <- get_pos ;; esds_loop m f c e (Some d)
      else Ret acc
@@ -533,6 +551,7 @@ Proof.
       by (symmetry; apply N.ltb_lt; clear; unfold HEADER_SIZE, Tables.HEADER_SIZE; lia) end.
   cbv iota. rewrite !bind_bind.
   rewrite run_read_desc_small by (clear; lia). cbv beta iota.
+  clamp_step.
   change (3 =? 3) with true. cbv iota. rewrite !bind_bind.
   rewrite (esdesc_dec m (esds_es_desc v)) by (first [assumption | clear -Hp; lia]).
   prog_norm. rewrite run_GetPos.
